@@ -14,6 +14,9 @@ def methodName (mid : Nat) : String :=
   match mid % 4 with | 0 => "a" | 1 => "b" | 2 => "c" | _ => "d"
 
 def methodInfo (mid : Nat) : MethodInfo :=
+  if mid == 8 then { id := 8, trait := "U2", name := "r", hasDefaultImpl := false }
+  else if mid == 9 then { id := 9, trait := "U2", name := "consume", hasDefaultImpl := true }
+  else
   { id := mid, trait := traitName mid, name := methodName mid,
     hasDefaultImpl := mid % 4 == 2 || mid % 4 == 3,
     partialByDefault := false,
@@ -39,6 +42,8 @@ def realProg (mid : Nat) (a : Nat) : Prog Nat Int :=
     through the mock, nested calls to *provided* methods (c, d) run that default body directly. -/
 def dfltProg : Nat → Nat → Nat → Prog Nat Int
   | 0, _, _ => .done none
+  | _+1, 9, a =>
+    .log (.dflt 9 a) <| .call (methodInfo 8) a fun v => if a == 6 then .done none else .done (some (4000 + v))
   | fuel+1, mid, a =>
     let leaf : Int := 3000 + 10 * (mid : Int) + (a : Int)
     let sub (m : Nat) (x : Nat) (k : Int → Prog Nat Int) : Prog Nat Int :=
